@@ -33,7 +33,16 @@ SpectroscopicSightLineGroup, SpectroscopicFibreOpticGroup, BolometerCamera):
     unchanged tree and therefore NOT judged: re-adding a member keeps a second entry (add_observer / add_foil_detector
     append unconditionally), a list naming an observer twice is stored as given, a duplicated member is observed once
     per entry; and the FORMER group of an observer that moved to another group (it keeps a stale entry: out of the
-    single-group domain, see ASSUMPTIONS).
+    single-group domain, see ASSUMPTIONS);
+  * rejected operations: a foreign object is offered alone, as the bare right-hand side, and at EVERY position of a
+    list that also holds the current members and fresh valid observers in all parent states (incl. members of other
+    groups), through every container entry point and the constructor. After the exception the statement's clauses
+    must still hold for every group involved: the target's membership state (members, len, parents, name lookup,
+    getters) is what it was, and every other group whose member was offered still has the same members and is still
+    their parent. The statement does not promise more for a type rejection ("changes nothing" is worded for
+    wrong-length sequences only), so offered observers that belong to no group and end up as non-member children of
+    the target are counted (`rejected_nonmember_reparented_observed`) but not judged; for wrong-length broadcast
+    assignments the whole group state (membership + getters + complete member snapshots) must be identical.
 
 The oracle shares no code with cherab: expectations are computed from the case description and from values read
 directly from the member observers (Raysect objects).
@@ -76,13 +85,14 @@ ASSUMPTIONS = [
 ]
 QUICK = dict(cases=3000, workers=2, timecap=25)
 THOROUGH = dict(cases=300000, workers=16, timecap=300)
-REQUIRED = {"registry": 7, "assign_scalar": 300, "assign_seq": 1200, "wronglen": 3000, "getter": 10000,
+REQUIRED = {"registry": 2, "assign_scalar": 300, "assign_seq": 1200, "wronglen": 2500, "getter": 10000,
             "snapshot_members": 20000, "lookup_index": 500, "lookup_slice": 800, "lookup_name": 300, "invariant": 5000,
             "hook_invariant": 5000, "foreign": 500, "observe_members": 50, "history_ops": 5000, "random_histories": 50,
             "alias_container": 200, "alias_values": 800, "alias_add": 100, "alias_getter": 800, "alias_two_groups": 60,
             "entry_states": 1500, "entry:already-parented-to-this-group": 50, "entry:already-a-member": 100,
             "entry:member-of-another-group": 50, "entry:parented-to-another-group": 50, "entry:parented-to-world": 50,
-            "entry:parented-to-a-node": 50, "entry:no-parent": 300, "dup_assign": 100}
+            "entry:parented-to-a-node": 50, "entry:no-parent": 300, "dup_assign": 100,
+            "rejected_ops": 500, "rejected_other_groups": 200}
 
 CLASSES = ["SightLineGroup", "FibreOpticGroup", "PixelGroup", "TargettedPixelGroup",
            "SpectroscopicSightLineGroup", "SpectroscopicFibreOpticGroup", "BolometerCamera"]
